@@ -33,10 +33,10 @@ func solverVersion() string {
 // assumptionsFor collects the //verif:assume lines of the selected harness files plus the global ones.
 func assumptionsFor(sel []*Group) []string {
 	set := map[string]bool{
-		"bounded claim: every case-split range, buffer length and unwinding limit listed under coverage.harnesses is a bound; values outside are outside the claim": true,
+		"bounded claim: every case-split range, buffer length and unwinding limit listed under coverage.harnesses is a bound; values outside are outside the claim":                                  true,
 		"go/ssa (x/tools v0.29.0) lowering and the gosmt interpreter are trusted; they are validated on each run against the native build on random concrete traces (traces_validated_against_impl)": true,
-		"z3 is trusted for unsat answers; sat answers are replayed natively before being reported": true,
-		"single sequential goroutine: no scheduler or memory-model reasoning": true,
+		"z3 is trusted for unsat answers; sat answers are replayed natively before being reported":                                                                                                   true,
+		"single sequential goroutine: no scheduler or memory-model reasoning":                                                                                                                        true,
 	}
 	for _, g := range sel {
 		seen := map[string]bool{}
